@@ -422,7 +422,9 @@ def rule_mro(chk):
         tests = [t for t in cfg.live if t.kind == "test" and isinstance(t.exprs[0], ast.Compare) and len(t.exprs[0].ops) == 1
                  and isinstance(t.exprs[0].ops[0], ast.In) and isinstance(t.exprs[0].left, ast.Name) and t.exprs[0].left.id == lv
                  and unparse(t.exprs[0].comparators[0]) == "self.registry"]
-        chk.need(tests, "extractor lookup: registry membership test not found in %s" % g.fq)
+        if not tests:
+            chk.skip("C03.mro", "get_fields_for_exception:nearest-class-wins", chk.where(g, head.lineno), "lookup is not written as a membership test: loop-exit rule not evaluated")
+            continue
         quiet = common.quiet_exc_edges(ctx, g)
         for t in tests:
             starts = [s for s, l in t.succ if l == "true"]
@@ -432,7 +434,9 @@ def rule_mro(chk):
                     fail="after a registered class is found the loop can continue to a more distant base class")
         # the extractor selected is the one registered for that class
         regs = [x for x in iter_own_nodes(g.node) if isinstance(x, ast.Subscript) and unparse(x.value) == "self.registry" and isinstance(x.ctx, ast.Load)]
-        chk.req(bool(regs) and all(isinstance(x.slice, ast.Name) and x.slice.id == lv for x in regs), "C03.mro",
+        gets = [x for x in iter_own_nodes(g.node) if isinstance(x, ast.Call) and isinstance(x.func, ast.Attribute) and x.func.attr == "get" and unparse(x.func.value) == "self.registry"]
+        chk.req((bool(regs) or bool(gets)) and all(isinstance(x.slice, ast.Name) and x.slice.id == lv for x in regs)
+                and all(x.args and isinstance(x.args[0], ast.Name) and x.args[0].id == lv for x in gets), "C03.mro",
                 "get_fields_for_exception:extractor-of-that-class", chk.where(g, head.lineno), good="self.registry[%s]" % lv,
                 fail="the extractor used is not the one registered for the class found")
     # no stale memoisation: state written on the lookup path must be fully invalidated on registration
